@@ -23,6 +23,8 @@ PACK_SIZE = 10
 
 
 def spec_script(spec):
+    if "requests" in spec:  # families with their own request alphabet (e.g. ROUTE)
+        return spec["requests"]
     an = M.Analysis(spec)
     return M.request_script(an)
 
@@ -53,7 +55,7 @@ def observe_specs(specs, d, with_run=True, batch_size=150):
 
 
 def observe_packable_family(fam, tier, shapes):
-    d = f"{L.WORK}/e2e/{fam}-{tier}"
+    d = f"{L.E2E_WORK}/{fam}-{tier}"
     shutil.rmtree(d, ignore_errors=True)
     singles = [F.single_spec(fam, i, sh) for i, sh in enumerate(shapes)]
     gen1 = L.generate_all(singles, f"{d}/singles")
@@ -80,6 +82,20 @@ def observe_packable_family(fam, tier, shapes):
     build, run, scripts = {}, {}, {}
     if to_build:
         build, runners = L.build_batches(to_build, allgen, f"{d}/batch", batch_size=60)
+        # a pack that does not compile is re-built member by member, so that the rustc verdict is
+        # attributed to the individual shapes (their single blueprints were accepted too)
+        failed_packs = [p for p in good_packs if not build[p["id"]]["build_ok"]]
+        if failed_packs:
+            retry = []
+            for p in failed_packs:
+                for i in p["members"]:
+                    sp = singles[i]
+                    shutil.copytree(f"{d}/singles/gen/{sp['id']}", f"{allgen}/{sp['id']}")
+                    retry.append(sp)
+            build2, runners2 = L.build_batches(retry, allgen, f"{d}/batch-retry", batch_size=60)
+            build.update(build2)
+            runners.extend(runners2)
+            to_build.extend(retry)
         by_id = {s["id"]: s for s in to_build}
         for bd, ids, binp in runners:
             script = {}
@@ -101,7 +117,7 @@ FAMILY_SHAPES = {"di": F.di_shapes, "dimw": F.dimw_shapes, "mw": F.mw_shapes, "e
 
 
 def load_family(fam, tier, th, force=False):
-    p = f"{L.WORK}/obs/{th}/{fam}-{tier}.json"
+    p = f"{L.OBS_ROOT}/{th}/{fam}-{tier}.json"
     if os.path.exists(p) and not force and not os.environ.get("VERIF_NO_CACHE"):
         with open(p) as f:
             o = json.load(f)
